@@ -154,3 +154,30 @@ Definition init_connection (challenge : N) (local_key : key) (t : ttype) (r : re
             end
         end
   end.
+
+(* ------------------------------------------------------------------ several connections *)
+(* The challenge of a connection is an element of a stream of nonces (random32() per connection);
+   the stream is an explicit argument: the harness passes the challenges the implementation really
+   sent, the theorems quantify over streams without repetition.  The remote side may answer live,
+   or replay verbatim the answer an earlier connection received. *)
+Inductive sremote := SNo | SAns (a : answer) | SReplay (j : nat).
+Record sconn := { sc_local : key; sc_tt : ttype; sc_remote : sremote; sc_ev : bool }.
+(* the answer as it is when produced for challenge n: chall_signature is over n *)
+Definition over (a : answer) (n : N) : answer :=
+  {| a_key := a_key a; a_sig_by := a_sig_by a; a_sig_over := n; a_room := a_room a;
+     a_entity_ok := a_entity_ok a; a_rowsig_ok := a_rowsig_ok a; a_pubkey_ok := a_pubkey_ok a |}.
+Definition sremote_of (nonces : list N) (all : list sconn) (i : nat) (c : sconn) : remote :=
+  match sc_remote c with
+  | SNo => NoAnswer
+  | SAns a => match nth_error nonces i with Some n => Ans (over a n) | None => NoAnswer end
+  | SReplay j =>
+      match nth_error all j, nth_error nonces j with
+      | Some cj, Some nj => match sc_remote cj with SAns a => Ans (over a nj) | _ => NoAnswer end
+      | _, _ => NoAnswer
+      end
+  end.
+Definition conn_result (nonces : list N) (all : list sconn) (i : nat) (c : sconn) : result * list effect :=
+  match nth_error nonces i with
+  | Some n => init_connection n (sc_local c) (sc_tt c) (sremote_of nonces all i c) (sc_ev c)
+  | None => (ROkFalse, [])
+  end.
